@@ -51,26 +51,14 @@ Theorem T_C04_policy : forall (r : cres Z) old mism ovf,
 Proof. exact (@policy_exact Z). Qed.
 Print Assumptions T_C04_policy.
 
-(* "a value of another kind is handled by the mismatched-types policy": full strength for a pair of
-   types without any conversion: MismatchedTypes error or not loaded.  Refuted by the current code:
-   the exception is thrown inside the try block and the trailing catch (...) re-labels it. *)
-Theorem T_C04_policy_other_kind_refuted : exists (old : Z) mism ovf,
-  convert_by_policy false (COk 0) old mism ovf <>
-    match mism with PThrow => Raised EMismatchedTypes | PSkip => NotLoaded old end.
-Proof. exact policy_other_kind_refuted. Qed.
-Print Assumptions T_C04_policy_other_kind_refuted.
-
-Theorem T_C04_policy_other_kind_outside : forall (r : cres Z) old mism ovf, mism <> PThrow ->
+(* "a value of another kind is handled by the mismatched-types policy": for a pair of types without
+   any conversion, MismatchedTypes error or not loaded (was refuted before fix 76c37b6: the trailing
+   catch (...) re-labelled the exception as ParsingError) *)
+Theorem T_C04_policy_other_kind : forall (r : cres Z) old mism ovf,
   convert_by_policy false r old mism ovf =
     match mism with PThrow => Raised EMismatchedTypes | PSkip => NotLoaded old end.
-Proof. exact (@policy_other_kind_outside Z). Qed.
-Print Assumptions T_C04_policy_other_kind_outside.
-
-(* ... and inside the defect class the observable is exactly ParsingError *)
-Theorem T_C04_policy_other_kind_inside : forall (r : cres Z) old ovf,
-  convert_by_policy false r old PThrow ovf = Raised EParsingError.
-Proof. exact (@policy_other_kind_inside Z). Qed.
-Print Assumptions T_C04_policy_other_kind_inside.
+Proof. exact (@policy_other_kind_exact Z). Qed.
+Print Assumptions T_C04_policy_other_kind.
 
 (* composition: an integer of type S arriving at a target of type T that holds old *)
 Theorem T_C04_load_int : forall S T z old mism ovf, in_range S z ->
@@ -95,7 +83,7 @@ Print Assumptions T_C04_example_skip.
 
 (* ================= floating-point half (Flocq) =================
    Model: static_cast<float/double>(integer) = round to nearest even, static_cast<integer>(float) =
-   truncation, UNDEFINED outside the type ([conv.fpint]), double -> float = round to nearest even inside
+   truncation, UNDEFINED outside the type ([conv.fpint]; proved unreachable), double -> float = round to nearest even inside
    [lowest, max], float -> double exact. *)
 
 (* integer -> float / double: whatever the conversion returns is EXACTLY the source value
@@ -123,43 +111,29 @@ Theorem T_C04_int_to_f64_complete : forall S z, in_range S z ->
 Proof. exact int_to_f64_complete. Qed.
 Print Assumptions T_C04_int_to_f64_complete.
 
-(* FULL STRENGTH: an integer that is not exactly representable is reported as out_of_range.
-   Refuted: next to the top of a 32/64-bit type the rounded value is 2^31 / 2^32 / 2^63 / 2^64 and the
-   compare-back static_cast<TSource>(value) is undefined behaviour ([conv.fpint]) *)
-Theorem T_C04_int_to_fp_reject_refuted :
-  (in_range TU64 (2 ^ 64 - 1) /\ conv_int_f32 TU64 (2 ^ 64 - 1) = CUB /\ ub_class32 TU64 (2 ^ 64 - 1) = true) /\
-  (in_range TI64 (2 ^ 63 - 1) /\ conv_int_f64 TI64 (2 ^ 63 - 1) = CUB /\ ub_class64 TI64 (2 ^ 63 - 1) = true).
-Proof. exact (conj ub_witness_f32 ub_witness_f64). Qed.
-Print Assumptions T_C04_int_to_fp_reject_refuted.
-
-(* ... it holds outside the class "the rounded value, truncated, is outside the source type" *)
-Theorem T_C04_int_to_f32_reject_outside : forall S z, in_range S z -> ub_class32 S z = false ->
+(* an integer that is not exactly representable is reported as out_of_range — for every source value,
+   including the top of the 32/64-bit types where the rounded value is 2^31 / 2^32 / 2^63 / 2^64
+   (undefined behaviour in the compare-back before fix 30e94fb) *)
+Theorem T_C04_int_to_f32_reject : forall S z, in_range S z ->
   ~ generic_format radix2 (SpecFloat.fexp 24 128) (IZR z) -> conv_int_f32 S z = COutOfRange.
-Proof. exact int_to_f32_reject_outside. Qed.
-Print Assumptions T_C04_int_to_f32_reject_outside.
+Proof. exact int_to_f32_reject. Qed.
+Print Assumptions T_C04_int_to_f32_reject.
 
-Theorem T_C04_int_to_f64_reject_outside : forall S z, in_range S z -> ub_class64 S z = false ->
+Theorem T_C04_int_to_f64_reject : forall S z, in_range S z ->
   ~ generic_format radix2 (SpecFloat.fexp 53 1024) (IZR z) -> conv_int_f64 S z = COutOfRange.
-Proof. exact int_to_f64_reject_outside. Qed.
-Print Assumptions T_C04_int_to_f64_reject_outside.
+Proof. exact int_to_f64_reject. Qed.
+Print Assumptions T_C04_int_to_f64_reject.
 
-(* ... the class is exactly where the model reports UB, and it is empty for 8/16-bit sources into
-   float and for sources up to 32 bits into double *)
-Theorem T_C04_int_to_f32_ub_iff : forall S z, in_range S z -> (conv_int_f32 S z = CUB <-> ub_class32 S z = true).
-Proof. exact int_to_f32_ub_iff. Qed.
-Print Assumptions T_C04_int_to_f32_ub_iff.
+(* no undefined behaviour: the outcome is always the rounded value or out_of_range *)
+Theorem T_C04_int_to_f32_total : forall S z, in_range S z ->
+  conv_int_f32 S z = COk (of_int32 z) \/ conv_int_f32 S z = COutOfRange.
+Proof. exact int_to_f32_total. Qed.
+Print Assumptions T_C04_int_to_f32_total.
 
-Theorem T_C04_int_to_f64_ub_iff : forall S z, in_range S z -> (conv_int_f64 S z = CUB <-> ub_class64 S z = true).
-Proof. exact int_to_f64_ub_iff. Qed.
-Print Assumptions T_C04_int_to_f64_ub_iff.
-
-Theorem T_C04_int_to_f32_no_ub_small : forall S z, bits_of S <= 16 -> in_range S z -> ub_class32 S z = false.
-Proof. exact no_ub_small_f32. Qed.
-Print Assumptions T_C04_int_to_f32_no_ub_small.
-
-Theorem T_C04_int_to_f64_no_ub_le32 : forall S z, bits_of S <= 32 -> in_range S z -> ub_class64 S z = false.
-Proof. exact no_ub_le32_f64. Qed.
-Print Assumptions T_C04_int_to_f64_no_ub_le32.
+Theorem T_C04_int_to_f64_total : forall S z, in_range S z ->
+  conv_int_f64 S z = COk (of_int64 z) \/ conv_int_f64 S z = COutOfRange.
+Proof. exact int_to_f64_total. Qed.
+Print Assumptions T_C04_int_to_f64_total.
 
 (* double -> float: accepted exactly when finite and inside [lowest, max] of float; the result is
    the nearest float (ties to even); everything else — larger magnitudes, infinities, NaN — is
@@ -186,7 +160,7 @@ Print Assumptions T_C04_f32_to_f64.
 
 (* floating source, integer / bool target: invalid_argument by construction *)
 Theorem T_C04_fp_to_int : forall (x : binary64) T, conv_fp_int x T = CInvalidArgument.
-Proof. reflexivity. Qed.
+Proof. exact fp_to_int_invalid. Qed.
 Print Assumptions T_C04_fp_to_int.
 
 Example T_C04_example_flt_limits :
@@ -194,6 +168,15 @@ Example T_C04_example_flt_limits :
 Proof. exact flt_max_bits. Qed.
 Print Assumptions T_C04_example_flt_limits.
 
-Example T_C04_example_ub_i32 : in_range TI32 (2 ^ 31 - 1) /\ conv_int_f32 TI32 (2 ^ 31 - 1) = CUB.
-Proof. exact ub_witness_i32_f32. Qed.
-Print Assumptions T_C04_example_ub_i32.
+Example T_C04_example_top_values_refused :
+  conv_int_f32 TU64 (2 ^ 64 - 1) = COutOfRange /\ conv_int_f64 TU64 (2 ^ 64 - 1) = COutOfRange /\
+  conv_int_f32 TI64 (2 ^ 63 - 1) = COutOfRange /\ conv_int_f64 TI64 (2 ^ 63 - 1) = COutOfRange /\
+  conv_int_f32 TU32 (2 ^ 32 - 1) = COutOfRange /\ conv_int_f32 TI32 (2 ^ 31 - 1) = COutOfRange.
+Proof. exact top_values_refused. Qed.
+Print Assumptions T_C04_example_top_values_refused.
+
+Example T_C04_example_top_values_accepted :
+  option_map bits_of_b32 (match conv_int_f32 TU64 (2 ^ 64 - 2 ^ 40) with COk v => Some v | _ => None end) = Some 0x5f7fffff /\
+  option_map bits_of_b64 (match conv_int_f64 TI64 (- 2 ^ 63) with COk v => Some v | _ => None end) = Some 0xc3e0000000000000.
+Proof. exact top_values_accepted. Qed.
+Print Assumptions T_C04_example_top_values_accepted.
